@@ -18,6 +18,7 @@
 #include "src/pdsh/opt.h"
 #include "src/pdsh/mod.h"
 #include <sys/stat.h>
+#include <netinet/in.h>
 
 static void lean_str(const char *name, const char *s)
 {
@@ -103,5 +104,7 @@ int main(void)
     LEAN_NAT("MO_S_IFMT", S_IFMT);
     LEAN_NAT("MO_S_IFDIR", S_IFDIR);
     LEAN_NAT("MO_S_IFREG", S_IFREG);
+    /* xrcmd.c: the reserved-port range of the rsh handshake */
+    LEAN_NAT("MO_IPPORT_RESERVED", IPPORT_RESERVED);
     return 0;
 }
